@@ -29,6 +29,8 @@ pub enum Entry {
     StreamPullLocked,
     StreamPullHeap,
     HeapSignedMessage,
+    /// `DryocBox::from_bytes(..)` (no ephemeral key) followed by `unseal`: must be Err, never a panic
+    BoxFromBytesThenUnseal,
 }
 
 pub const NIGHTLY_ENTRIES: &[Entry] = &[Entry::HeapBoxFromBytes, Entry::HeapSecretBoxFromBytes, Entry::HeapSealedUnseal, Entry::StreamPullLocked, Entry::StreamPullHeap, Entry::HeapSignedMessage];
@@ -64,7 +66,7 @@ impl Entry {
                 _ => 16,
             },
             Entry::SignOpen | Entry::SignVerifyDetached | Entry::SignFinalVerify | Entry::SignedMessageVerify | Entry::HeapSignedMessage => 64,
-            Entry::HeapBoxFromBytes | Entry::HeapSecretBoxFromBytes => 16,
+            Entry::HeapBoxFromBytes | Entry::HeapSecretBoxFromBytes | Entry::BoxFromBytesThenUnseal => 16,
             Entry::HeapSealedUnseal => 48,
             Entry::StreamPullLocked | Entry::StreamPullHeap => 17,
             Entry::AuthVerify | Entry::AuthObjVerify => 32,
@@ -125,7 +127,7 @@ pub fn authentic(entry: Entry, k: &Keys, msg: &[u8], stream_tag: u8) -> Vec<u8> 
                 sodium::stream_push(&mut st, msg, None, stream_tag)
             }
         },
-        Entry::HeapBoxFromBytes => sodium::box_easy(msg, &k.nonce, &k.rpk, &k.ssk).unwrap(),
+        Entry::HeapBoxFromBytes | Entry::BoxFromBytesThenUnseal => sodium::box_easy(msg, &k.nonce, &k.rpk, &k.ssk).unwrap(),
         Entry::HeapSecretBoxFromBytes => sodium::secretbox_easy(msg, &k.nonce, &k.key),
         Entry::HeapSealedUnseal => sodium::box_seal(msg, &k.rpk),
         Entry::StreamPullLocked | Entry::StreamPullHeap => {
@@ -246,6 +248,14 @@ fn call(c: &Case) -> Option<bool> {
             let mut s = dryoc::onetimeauth::OnetimeAuth::new(k.key);
             s.update(&inp[16..].to_vec());
             Some(a && s.verify(&mac.to_vec()).is_ok())
+        }
+        Entry::BoxFromBytesThenUnseal => {
+            use dryoc::dryocbox::DryocBox;
+            use dryoc::types::StackByteArray;
+            let kp = dryoc::keypair::KeyPair::<StackByteArray<32>, StackByteArray<32>>::from_slices(&k.rpk, &k.rsk).ok()?;
+            let r = DryocBox::<StackByteArray<32>, StackByteArray<16>, Vec<u8>>::from_bytes(inp).and_then(|b| b.unseal_to_vec(&kp));
+            let r2 = serde_json::from_value::<DryocBox<StackByteArray<32>, StackByteArray<16>, Vec<u8>>>(serde_json::json!({"ephemeral_pk": null, "tag": inp.iter().take(16).collect::<Vec<_>>(), "data": inp.iter().skip(16).collect::<Vec<_>>()})).ok().map(|b| b.unseal_to_vec(&kp).is_ok());
+            Some(r.is_ok() || r2 == Some(true))
         }
         Entry::PwStrVerify => {
             let s = std::str::from_utf8(inp).ok()?;
@@ -499,7 +509,7 @@ pub fn run(ctx: &mut Ctx) -> Result<(), Violation> {
     let mut entries: Vec<Entry> = AEAD_ENTRIES.iter().map(|o| Entry::Aead(*o)).collect();
     entries.extend([
         Entry::SignOpen, Entry::SignVerifyDetached, Entry::SignFinalVerify, Entry::SignedMessageVerify, Entry::AuthVerify, Entry::AuthObjVerify,
-        Entry::OtaVerify, Entry::OtaObjVerify,
+        Entry::OtaVerify, Entry::OtaObjVerify, Entry::BoxFromBytesThenUnseal,
     ]);
     let mut items: Vec<(Entry, usize)> = vec![];
     for e in &entries {
@@ -524,7 +534,7 @@ pub fn run(ctx: &mut Ctx) -> Result<(), Violation> {
                     }
                     ev.eval(1);
                     ev.class(&format!("{}:{}", entry.name(), class));
-                    if class == "valid" && c.ad.is_none() && r != Some(true) {
+                    if class == "valid" && c.ad.is_none() && r != Some(true) && entry != Entry::BoxFromBytesThenUnseal {
                         return Err(Violation::new("C04", "harness", format!("harness: authentic input for {} not accepted", entry.name()), serde_json::to_value(&c).unwrap()));
                     }
                     if len < entry.overhead() || class.starts_with("valid-") {
@@ -538,6 +548,38 @@ pub fn run(ctx: &mut Ctx) -> Result<(), Violation> {
         }
         Ok(())
     })?;
+    // long authentic streams: hundreds of consecutive messages on ONE pull state (counter carries, no rekey), both APIs
+    {
+        use dryoc::classic::crypto_secretstream_xchacha20poly1305 as css;
+        let streams: Vec<u64> = (0..ctx.tier.pick(8u64, 64)).collect();
+        ctx.par_each(&streams, |_, &si, ev| {
+            let k = keys(seed ^ 0x51 ^ si);
+            let n = 300 + (si as usize * 37) % 400;
+            let mut st = sodium::stream_init_pull(&k.header, &k.key);
+            let cts: Vec<Vec<u8>> = (0..n).map(|i| sodium::stream_push(&mut st, &vec![i as u8; i % 5], None, if i % 97 == 96 && si % 2 == 0 { 2 } else { 0 })).collect();
+            let r = no_panic(|| {
+                let mut dst = css::State::new();
+                css::crypto_secretstream_xchacha20poly1305_init_pull(&mut dst, &k.header, &k.key);
+                let mut obj = dryoc::dryocstream::DryocStream::init_pull(&k.key, &k.header);
+                let mut ok = 0usize;
+                for c in &cts {
+                    let mut m = vec![0u8; c.len() - 17];
+                    let mut t = 0u8;
+                    if css::crypto_secretstream_xchacha20poly1305_pull(&mut dst, &mut m, &mut t, c, None).is_ok() && obj.pull_to_vec(c, None).is_ok() {
+                        ok += 1;
+                    }
+                }
+                ok
+            });
+            ev.eval(n as u64 * 2);
+            ev.class_n("long-authentic-stream-messages", n as u64 * 2);
+            ev.nontrivial(fnv64(&[b"longstream", &si.to_le_bytes()]));
+            match r {
+                Ok(_) => Ok(()),
+                Err(p) => Err(Violation::new("C04", "untrusted-input-stream-sequence", format!("pull panicked while consuming a stream of {n} authentic messages: {p} at {}", last_panic_loc()), json!({"keyseed": seed ^ 0x51 ^ si, "messages": n, "rekey_every_97": si % 2 == 0}))),
+            }
+        })?;
+    }
     // all 256 stream tags, authentic, to both pull APIs
     let tags: Vec<u8> = (0..=255u8).collect();
     ctx.par_each(&tags, |_, &tag, ev| {
@@ -625,6 +667,26 @@ pub fn run(ctx: &mut Ctx) -> Result<(), Violation> {
 }
 
 pub fn replay(v: &Violation) -> Result<(), String> {
+    if v.kind == "untrusted-input-stream-sequence" {
+        use dryoc::classic::crypto_secretstream_xchacha20poly1305 as css;
+        let k = keys(v.case["keyseed"].as_u64().unwrap_or(0));
+        let n = v.case["messages"].as_u64().unwrap_or(300) as usize;
+        let rekey = v.case["rekey_every_97"].as_bool().unwrap_or(false);
+        let mut st = sodium::stream_init_pull(&k.header, &k.key);
+        let cts: Vec<Vec<u8>> = (0..n).map(|i| sodium::stream_push(&mut st, &vec![i as u8; i % 5], None, if i % 97 == 96 && rekey { 2 } else { 0 })).collect();
+        return no_panic(|| {
+            let mut dst = css::State::new();
+            css::crypto_secretstream_xchacha20poly1305_init_pull(&mut dst, &k.header, &k.key);
+            let mut obj = dryoc::dryocstream::DryocStream::init_pull(&k.key, &k.header);
+            for c in &cts {
+                let mut m = vec![0u8; c.len() - 17];
+                let mut t = 0u8;
+                let _ = css::crypto_secretstream_xchacha20poly1305_pull(&mut dst, &mut m, &mut t, c, None);
+                let _ = obj.pull_to_vec(c, None);
+            }
+        })
+        .map_err(|p| format!("pull panicked on a long authentic stream: {p}"));
+    }
     if v.kind == "untrusted-input-string" {
         let s: String = from_case(&v.case)?;
         for e in [Entry::PwStrVerify, Entry::PwNeedsRehash, Entry::PwFromStringVerify] {
